@@ -517,7 +517,7 @@ UNITS = {
             unit_copy_samples("C11"), _lazy("contracts.sphere_header", "unit_sphere_read_signal", "C11")],
     "C16": [unit_std("C16", "accumulate_vector"), unit_std("C16", "apply_vector"), unit_std("C16", "have_stats"), unit_std_tensor("C16"), unit_std_apply_tensor("C16"), _lazy("contracts.standardize", "unit_dispatch", "C16")],
     "C17": [unit_std("C17", "accumulate_vector"), _lazy("contracts.standardize", "unit_sanitize_accepts_saved", "C17"), unit_readers("C17"),
-            _lazy("contracts.standardize_save", "unit_save", "C17")],
+            _lazy("contracts.standardize_save", "unit_save", "C17"), _lazy("contracts.standardize_init", "unit_init", "C17")],
     "C08": [unit_alias_arg("C08"), _lazy("contracts.alias", "unit_from_alias", "C08"), _lazy("contracts.alias", "unit_registry", "C08")],
     "C18": [unit_pre("C18", "preemph"), unit_pre("C18", "dither"), _lazy("contracts.purity", "unit_purity", "C18"), _lazy("contracts.accessors", "unit_ctors", "C18")],
     "C12": [unit_copy_samples("C12"), _lazy("contracts.sphere", "unit_g711", "C12"), unit_header_validation("C12"),
@@ -526,7 +526,7 @@ UNITS = {
     "C20": [unit_circshift("C20"), _lazy("contracts.util_misc", "unit_angular", "C20"), unit_windows("C20"), _lazy("contracts.purity", "unit_purity", "C20"), _lazy("contracts.windows", "unit_gamma", "C20"), _lazy("contracts.util_misc", "unit_gauss_quant", "C20"), _lazy("contracts.accessors", "unit_ctors", "C20")],
     "C05": [unit_tri("C05", "init"), unit_tri("C05", "truncated"), unit_fbank("C05", "init"), unit_fbank("C05", "truncated"), unit_gabor("C05"), unit_gamma_prefix("C05"), _lazy("contracts.purity", "unit_purity", "C05"), _lazy("contracts.accessors", "unit_accessors", "C05")],
     "C06": [unit_tri("C06", "frequency"), unit_fbank("C06", "frequency"), _lazy("contracts.filters_gabor", "unit_resp_length", "C06"), _lazy("contracts.filters_gabor", "unit_trunc_shape", "C06"), _lazy("contracts.filters_gabor", "unit_gamma_trunc_shape", "C06"), unit_tri("C06", "truncated"), unit_tri("C06", "init"), unit_fbank("C06", "truncated"), unit_fbank("C06", "init"), _lazy("contracts.purity", "unit_purity", "C06")],
-    "C14": [unit_torch_stft("C14"), unit_torch_wrappers("C14"), _lazy("contracts.torch_wrappers", "unit_from_stft", "C14"), _lazy("contracts.torch_wrappers", "unit_stft_module", "C14"), _lazy("contracts.torch_wrappers", "unit_stft_module_init", "C14")],
+    "C14": [unit_torch_stft("C14"), unit_torch_wrappers("C14"), _lazy("contracts.torch_wrappers", "unit_from_stft", "C14"), _lazy("contracts.torch_wrappers", "unit_stft_module", "C14"), _lazy("contracts.torch_wrappers", "unit_stft_module_init", "C14"), _lazy("contracts.accessors", "unit_torch_small", "C14")],
     "C09": [unit_torch_stft("C09")] + [_lazy_list("contracts.cli", "units", "C09", k) for k in range(8)] + [_lazy("contracts.cli", "unit_config_type", "C09")],
     "C10": [_lazy_list("contracts.cli", "units", "C10", k) for k in range(6)] + [_lazy("contracts.purity", "unit_purity", "C10")],
     "C19": [_scales("C19"), _lazy("contracts.accessors", "unit_ctors", "C19")],
